@@ -6,6 +6,7 @@ CONSTANTS
   DevFlushSkipsLast = FALSE
   DevResizeKeepsOldGdt = FALSE
   DevResizeMovesSoleBackup = FALSE
+  DevSearchGuesses8xBs = TRUE
   DevBackupSearchIgnoresSs2 = TRUE
 INVARIANT TypeOK
 INVARIANT InvCurrent
